@@ -22,15 +22,15 @@ deriving Repr
 
 def obsResponse (cfg : Cfg) (dest : Str) (s : Sent) : ObsMsg :=
   { time := s.time, dest := dest, startLine := okLine, st := s.msg.st, usn := s.msg.usn, nts := [],
-    location := cfg.location, heard := hearSearch s.msg.st s.msg.usn cfg.location }
+    location := cfg.location, heard := hearResponse cfg s.msg }
 
 def obsAlive (cfg : Cfg) (target : Str) (s : Sent) : ObsMsg :=
   { time := s.time, dest := target, startLine := notifyLine, st := s.msg.st, usn := s.msg.usn,
-    nts := ntsAlive, location := cfg.location, heard := hearAlive s.msg.st s.msg.usn cfg.location }
+    nts := ntsAlive, location := cfg.location, heard := hearAlive cfg s.msg }
 
 def obsByebye (cfg : Cfg) (target : Str) (time : Int) (m : Msg) : ObsMsg :=
   { time := time, dest := target, startLine := notifyLine, st := m.st, usn := m.usn,
-    nts := ntsByebye, location := cfg.location, heard := hearByebye m.st m.usn cfg.location }
+    nts := ntsByebye, location := cfg.location, heard := hearByebye cfg m }
 
 def runSearch (k : Consts) (cfg : Cfg) (t : DevTree) (i : SearchIn) : SearchObs :=
   { time := i.time, requester := i.requester, req := i.req,
@@ -43,7 +43,7 @@ def ticks (k : Consts) (a : AnnIn) : Nat :=
 
 def runCase (k : Consts) (cfg : Cfg) (target : Str) (t : DevTree) (searches : List SearchIn)
     (ann : Option AnnIn) : CaseObs :=
-  { tree := t, location := cfg.location, target := target,
+  { tree := t, alwaysRoot := k.alwaysRoot, location := cfg.location, target := target,
     searches := searches.map (runSearch k cfg t),
     alives := match ann with
       | none => []
